@@ -79,27 +79,31 @@ def event_job(job):
 
 
 def quad_job(job):
-    """equal-weight quadrature of the estimator over a scrambled Sobol point set in (u1, u2, u4) (the integrand does not depend on u3)"""
+    """equal-weight quadrature of the estimator: midpoints of n4 equal strata in u4 (the coordinate with the integrable horizon
+    singularity; a pure quasi-random set has a heavy-tailed error there) x k scrambled-Sobol points in (u1, u2) per stratum, drawn
+    from one running sequence; u3 fixed (the integrand does not depend on it)"""
     from scipy.stats import qmc
     spec = job["spec"]
     g, cfg = make_geom(spec)
-    sob = qmc.Sobol(d=3, scramble=True, seed=job["seed"])
+    n4, k = job["n4"], job["k"]
+    sob = qmc.Sobol(d=2, scramble=True, seed=job["seed"])
     tot, cnt = 0.0, 0
-    for _ in range(max(1, 2 ** (job["m"] - 20))):
-        p = sob.random(2 ** min(job["m"], 20)).T
-        u = np.stack([p[0], p[1], np.full(p.shape[1], 0.5), p[2]])
+    block = max(1, (1 << 20) // k)
+    for k0 in range(0, n4, block):
+        d = (np.arange(k0, min(n4, k0 + block)) + 0.5) / n4
+        p = sob.random(len(d) * k).T
+        u = np.stack([p[0], p[1], np.full(p.shape[1], 0.5), np.repeat(d, k)])
         g.throw(u)
         nv = int(np.asarray(g.event_mask).sum())
         est = g.mcintegral(np.ones(nv), -1.0, np.ones(nv), 0.0, 1.0, 1.0)[1] if nv else 0.0
         tot += float(est) * u.shape[1]
         cnt += u.shape[1]
     est = tot / cnt
-    n1 = n2 = n4 = None
     # grid of the specification's quadrature: the outer step must resolve the cone angle
     nu0 = np.arccos(np.clip((g.core_alt ** 2 - g.earth_rad_2 - g.minLOSpathLen ** 2) / (2 * g.earth_radius * g.minLOSpathLen), -1, 1))
     nNu = int(min(job["nmax"], max(200, 8 * (np.pi / 2 - nu0) / cfg.simulation.max_cherenkov_angle)))
     return [{"kind": "quad", "c": region_of(g, cfg), "est": bits(est), "nNu": nNu, "nTh": job["nth"],
-             "_m": dict(spec, estimate=est, lattice=["sobol", cnt], spec_grid=[nNu, job["nth"]])}]
+             "_m": dict(spec, estimate=est, lattice=[n4, k], spec_grid=[nNu, job["nth"]])}]
 
 
 def _dispatch(job):
@@ -128,7 +132,8 @@ def run(tier="quick", seed=0, pid="C01"):
     jobs = [{"t": "ev", "seed": seed * 50 + i, "specs": specs[i::12], "n": 2500 if thorough else 700} for i in range(12) if specs[i::12]]
     qspecs = SPECS
     for s in qspecs:
-        jobs.append({"t": "quad", "spec": s, "m": 23 if thorough else 20, "seed": seed + 1, "nmax": 4000 if thorough else 1500,
+        jobs.append({"t": "quad", "spec": s, "n4": 262144 if thorough else 65536, "k": 32 if thorough else 16, "seed": seed + 1,
+                     "nmax": 4000 if thorough else 1500,
                      "nth": 32 if thorough else 20})
     res = par.pmap(_dispatch, jobs, workers=14)
     ev = [e for r in res for e in r if e["kind"] != "quad"]
@@ -155,8 +160,8 @@ def run(tier="quick", seed=0, pid="C01"):
         rule="RegionGeom.throw(u) over configurations (altitude 5..36000 km, limb fraction, cone 0.5..80 deg, azimuth range, detector positions "
              "incl. poles and the date line) with u on faces / corners / denormals / 1-2^-53 of the closed cube and random; positions along "
              "trajectories at s in {0, 1, 50, 500, random} km; u-lattice quadratures of mcintegral; distinct = distinct events",
-        assumptions=["events within 1e-9 of the keep boundary are inconclusive", "quadrature acceptance band 0.3 % (scrambled Sobol points with an integrable horizon "
-                     "singularity vs a midpoint rule with the azimuth integral in closed form; observed <= 0.04 %)"],
+        assumptions=["events within 1e-9 of the keep boundary are inconclusive", "quadrature acceptance band 0.4 % (midpoint strata in u4 have a known negative bias ~ n4^-1/2 from the "
+                     "integrable horizon singularity: <= 0.19 % observed at n4 = 65536; the specification's midpoint rule has the azimuth integral in closed form)"],
         trusted=["TLC + Float64 override"])
 
 
